@@ -87,7 +87,7 @@ def _registry(draw) -> dict:
 
 def strategy(tier: str):
     return st.sampled_from(PAIRS).flatmap(
-        lambda pair: st.fixed_dictionaries({"pair": st.just(list(pair)), "registry": _registry(), "ops": _ops(*pair)})
+        lambda pair: st.fixed_dictionaries({"pair": st.just(list(pair)), "metric": st.booleans(), "registry": _registry(), "ops": _ops(*pair)})
     )
 
 
@@ -122,7 +122,7 @@ def run_case(case: dict) -> Outcome:
     async def go() -> Outcome | None:
         gateways = []
         for version in (old, new):
-            gateway, transport = env.make_gateway(version)
+            gateway, transport = env.make_gateway(version, metric=case.get("metric", True))
             env.install_registry(gateway.nodes, case["registry"])
             gateways.append((gateway, transport))
         shadow = RefController(old, registry=case["registry"]) if cross else None
